@@ -1,8 +1,74 @@
-(* C20 — pins (theorems in Proofs/C20Main.v to follow). *)
+(* C20 — mmCIF item editing changes only its target.  Property theorems only (document level; the tokenizer is an oracle). *)
 From Coq Require Import String Ascii ZArith List Bool Arith.
-From RV Require Import Base.Val Gen.Transformer.
+From RV Require Import Base.Val Base.PyStr Gen.Transformer Model.Bpseq Model.CifDoc Proofs.C20Main.
 Import ListNotations.
 
 Lemma C20_pin_shapes : copy_as_modelled = true /\ replace_as_modelled = true /\ cli_passes_content = true.
 Proof. repeat split; reflexivity. Qed.
 Print Assumptions C20_pin_shapes.
+
+(* a missing category or source item leaves the file untouched (the model returns `None` = the original text) *)
+Theorem C20_copy_absent_untouched : forall d cat from to,
+    find_cat d cat = None \/ (exists c, find_cat d cat = Some c /\ index_str from (c_attrs c) = None) ->
+    copy_item d cat from to = None.
+Proof. exact copy_absent_untouched. Qed.
+Print Assumptions C20_copy_absent_untouched.
+Theorem C20_replace_absent_untouched : forall d cat col values,
+    find_cat d cat = None \/ (exists c, find_cat d cat = Some c /\ index_str col (c_attrs c) = None) ->
+    replace_item d cat col values = Ok None.
+Proof. exact replace_absent_untouched. Qed.
+Print Assumptions C20_replace_absent_untouched.
+
+(* every other category is preserved, at its place *)
+Theorem C20_copy_frame : forall d cat from to d', copy_item d cat from to = Some d' ->
+    length d' = length d /\ forall k c, nth_error d k = Some c -> str_eqb (c_name c) cat = false -> nth_error d' k = Some c.
+Proof. exact copy_frame. Qed.
+Print Assumptions C20_copy_frame.
+Theorem C20_replace_frame : forall d cat col values d' m, replace_item d cat col values = Ok (Some (d', m)) ->
+    length d' = length d /\ forall k c, nth_error d k = Some c -> str_eqb (c_name c) cat = false -> nth_error d' k = Some c.
+Proof. exact replace_frame. Qed.
+Print Assumptions C20_replace_frame.
+
+(* the target category: same name and attributes (the new item appended when absent), rows in order, each rewritten by copy_row ... *)
+Theorem C20_copy_target : forall d cat from to d', copy_item d cat from to = Some d' ->
+    exists c i j, find_cat d cat = Some c /\ index_str from (c_attrs c) = Some i /\
+      let attrs := match index_str to (c_attrs c) with Some _ => c_attrs c | None => c_attrs c ++ [to] end in
+      index_str to attrs = Some j /\
+      forall k c0, nth_error d k = Some c0 -> str_eqb (c_name c0) cat = true ->
+        nth_error d' k = Some {| c_name := c_name c; c_attrs := attrs; c_rows := map (copy_row i j) (c_rows c) |}.
+Proof. exact copy_target. Qed.
+Print Assumptions C20_copy_target.
+
+(* ... and copy_row sets exactly the target value to the source value (appending it for a new item) *)
+Theorem C20_copy_row : forall i j row v, nth_error row i = Some v -> j <= length row ->
+    nth_error (copy_row i j row) j = Some v /\
+    (forall k, k <> j -> k < length row -> nth_error (copy_row i j row) k = nth_error row k) /\
+    length (copy_row i j row) = (if length row =? j then S (length row) else length row).
+Proof. exact copy_row_spec. Qed.
+Print Assumptions C20_copy_row.
+
+(* replace: rows keep their order and count, exactly item i of each row becomes the image of its value under the returned mapping *)
+Theorem C20_replace_rows : forall i values rows m rows' mf,
+    replace_rows i values m rows = Ok (rows', mf) ->
+    length rows' = length rows /\ (exists ext, mf = m ++ ext) /\
+    forall k row, nth_error rows k = Some row ->
+      exists v img, nth_error row i = Some v /\ assoc_find v mf = Some img /\ nth_error rows' k = Some (set_nth row i img).
+Proof. exact replace_rows_spec. Qed.
+Print Assumptions C20_replace_rows.
+
+(* the returned mapping is injective when the substitution alphabet has no repeated character *)
+Theorem C20_replace_mapping_injective : forall i values rows rows' mf, NoDup values ->
+    replace_rows i values [] rows = Ok (rows', mf) ->
+    forall a b kva kvb, nth_error mf a = Some kva -> nth_error mf b = Some kvb -> snd kva = snd kvb -> a = b.
+Proof. exact replace_mapping_injective. Qed.
+Print Assumptions C20_replace_mapping_injective.
+
+(* non-vacuity: two categories, copy onto a new item and replace with a two-letter alphabet; an alphabet that is too short raises *)
+Example C20_nonvacuous :
+  let d := [ {| c_name := L "atom_site"; c_attrs := [L "id"; L "label_asym_id"]; c_rows := [[L "1"; L "AA"]; [L "2"; L "B"]; [L "3"; L "AA"]] |};
+             {| c_name := L "cell"; c_attrs := [L "a"]; c_rows := [[L "10"]] |} ] in
+  (exists d', copy_item d (L "atom_site") (L "label_asym_id") (L "auth_asym_id") = Some d' /\
+              map c_rows d' = [[[L "1"; L "AA"; L "AA"]; [L "2"; L "B"; L "B"]; [L "3"; L "AA"; L "AA"]]; [[L "10"]]]) /\
+  (exists d' m, replace_item d (L "atom_site") (L "label_asym_id") (L "XY") = Ok (Some (d', m)) /\ m = [(L "AA", L "X"); (L "B", L "Y")]) /\
+  replace_item d (L "atom_site") (L "label_asym_id") (L "X") = Raise IndexError.
+Proof. vm_compute. repeat split; repeat eexists. Qed.
